@@ -17,7 +17,8 @@ import sys
 import time
 
 VERIF = "/verif"
-REPO = "/repo"
+REPO = os.environ.get("VERIF_REPO", "/repo")   # scratch worktrees for mutation self-tests only
+OUT = os.environ.get("VERIF_OUT", VERIF)        # where evidence/ and replays/ are written
 COQ = os.path.join(VERIF, "coq")
 OCAML = os.path.join(VERIF, "ocaml")
 SCRATCH = os.path.join(VERIF, ".scratch")
@@ -349,9 +350,9 @@ class Ctx:
 
     def finish(self):
         wall = time.time() - self.t0
-        os.makedirs(os.path.join(VERIF, "replays"), exist_ok=True)
-        os.makedirs(os.path.join(VERIF, "evidence"), exist_ok=True)
-        for old in glob.glob(os.path.join(VERIF, "replays", "%s-*.json" % self.pid)):
+        os.makedirs(os.path.join(OUT, "replays"), exist_ok=True)
+        os.makedirs(os.path.join(OUT, "evidence"), exist_ok=True)
+        for old in glob.glob(os.path.join(OUT, "replays", "%s-*.json" % self.pid)):
             os.remove(old)
         lines = []
         n_viol = 0
@@ -383,7 +384,7 @@ class Ctx:
                 continue
             n_viol += 1
             h = hashlib.sha1(json.dumps([v["key"], v["what"]], sort_keys=True, default=str).encode()).hexdigest()[:10]
-            rp = os.path.join(VERIF, "replays", "%s-%s.json" % (self.pid, h))
+            rp = os.path.join(OUT, "replays", "%s-%s.json" % (self.pid, h))
             json.dump(dict(property=self.pid, key=v["key"], what=v["what"], failing_input_found=v["found_input"],
                            replay=v["replay"], tier=self.tier, seed=self.seed,
                            how_to_rerun="cd /verif && VERIF_SEED=%d ./check %s --tier %s" % (self.seed, self.pid, self.tier)),
@@ -415,7 +416,7 @@ class Ctx:
         )
         ev = dict(property_id=self.pid, tier=self.tier, seed=self.seed, level=self.level, coverage=cov,
                   assumptions=self.assumptions, wall_s=round(wall, 2), violations=n_viol)
-        evp = os.path.join(VERIF, "evidence", "%s.json" % self.pid)
+        evp = os.path.join(OUT, "evidence", "%s.json" % self.pid)
         json.dump(ev, open(evp, "w"), indent=1, default=str)
         validate_evidence(evp)
         for l in lines:
@@ -457,7 +458,7 @@ def setup_impl_env():
     tag = source_hash()
     cache = os.path.join(SCRATCH, "numba-" + tag)
     for old in glob.glob(os.path.join(SCRATCH, "numba-*")):
-        if old != cache:
+        if old != cache and REPO == "/repo" and time.time() - os.path.getmtime(old) > 6 * 3600:
             # keep at most the current one; another check may be using an old
             # one only if /repo changed under it, which the harness does not do
             shutil.rmtree(old, ignore_errors=True)
